@@ -226,4 +226,15 @@ theorem sliceFromChunks_body (n len i : Nat) :
   constructor <;>
     simp [runViews, SeqBody.sliceFromChunks, SeqBody.sliceFromChunksMut, vexec, vstep, lookupP, lookupV, lookupVs, LX.eval, noAlias]
 
+/-- by-reference `flatten` (`N·M` elements; `K` carries `M`) and `unflatten` (`NM` elements; `K` carries `NM`): the receiver
+    reference retyped — one view of the whole storage at its address, with the receiver's mutability -/
+theorem regroupRef_body (n k i : Nat) :
+    runViews false SeqBody.flattenRef ⟨n, k, i⟩ = .views [⟨0, n * k, false⟩] ∧
+    runViews true SeqBody.flattenMut ⟨n, k, i⟩ = .views [⟨0, n * k, true⟩] ∧
+    runViews false SeqBody.unflattenRef ⟨n, k, i⟩ = .views [⟨0, k, false⟩] ∧
+    runViews true SeqBody.unflattenMut ⟨n, k, i⟩ = .views [⟨0, k, true⟩] := by
+  refine ⟨?_, ?_, ?_, ?_⟩ <;>
+    simp [runViews, SeqBody.flattenRef, SeqBody.flattenMut, SeqBody.unflattenRef, SeqBody.unflattenMut, vexec, vstep, lookupV,
+      lookupVs, LX.eval, noAlias]
+
 end GA.Bridge.SeqBody
